@@ -101,8 +101,9 @@ pub fn pat(seed: u32, k: usize) -> u8 {
 pub fn msg_slug(msg: &str) -> String {
     let mut out = String::new();
     let mut last_dash = true;
-    for w in msg.split(|c: char| !c.is_ascii_alphabetic()) {
-        if w.len() < 3 {
+    for w in msg.split(|c: char| c.is_whitespace() || c == '`' || c == ':' || c == ',') {
+        // drop addresses, numbers and punctuation-laden tokens
+        if w.len() < 3 || !w.chars().all(|c| c.is_ascii_alphabetic() || c == '_') {
             continue;
         }
         if !last_dash {
